@@ -6,4 +6,7 @@ import Helm.Props.C03
 #print axioms Helm.Props.C03.upgrade_failure_contained_instance
 #print axioms Helm.Props.C03.atomic_upgrade_restores_instance
 #print axioms Helm.Props.C03.atomic_install_leaves_nothing_instance
+#print axioms Helm.Props.C03.atomic_failure_is_rollback
+#print axioms Helm.Props.C03.atomic_restores_previous_manifest
+#print axioms Helm.Props.C03.cleanup_removes_created
 #print axioms Helm.Props.C03.failure_paths_skeleton
